@@ -4,6 +4,7 @@
 -/
 import Edn.Proofs.Reject
 import Edn.Proofs.NumberSound
+import Edn.Proofs.IdentSound
 
 namespace Edn.Properties.C10
 open Edn.Model Edn.Proofs
@@ -107,6 +108,15 @@ theorem core_number_outside_grammar_rejected (s : Bytes)
 example : (match readNumber Cfg.core "0x1F".toUTF8.toList with | .err _ => true | .ok _ _ => false) = true := by decide +kernel
 example : (match readNumber Cfg.core "1/2".toUTF8.toList with | .err _ => true | .ok _ _ => false) = true := by decide +kernel
 example : (match readNumber Cfg.core "007".toUTF8.toList with | .err _ => true | .ok _ _ => false) = true := by decide +kernel
+
+/-- every configuration: a maximal run of non-delimiter bytes that is not a well-formed identifier
+    token (empty, containing `::`, `ns/` or `/name` with an empty side, a bare `:` or `:/`) is
+    rejected by the identifier reader with INVALID_SYNTAX - never read as something else -/
+theorem identifier_outside_grammar_rejected (ctx : Ctx) (tok rest : Bytes) (cl : List Call)
+    (hne : ∀ c ∈ tok, isDelim c = false) (hr : rest = [] ∨ ∃ c t, rest = c :: t ∧ isDelim c = true)
+    (hbad : ¬ (Edn.Spec.IdentLex tok ∧ ∃ a, Edn.Spec.IdentDenotes tok a)) :
+    ∃ e st', readIdentifier ctx { rest := tok ++ rest, calls := cl } = .err e st' ∧ e.code = .invalidSyntax :=
+  Edn.Proofs.readIdentifier_rejects ctx tok rest cl hne hr hbad
 
 /-- non-vacuity: `[1 2` is an unterminated collection, `{:a}` an odd map, `)` a stray closer -/
 example : (match (read Cfg.core {} "[1 2".toUTF8.toList).out with | .error c _ _ => c == .unterminatedCollection | _ => false) = true := by decide +kernel
